@@ -9,6 +9,7 @@ import (
 
 	"verifharness/internal/chainkit"
 
+	"github.com/nspcc-dev/neo-go/pkg/config/netmode"
 	"github.com/nspcc-dev/neo-go/pkg/core"
 	"github.com/nspcc-dev/neo-go/pkg/core/block"
 	"github.com/nspcc-dev/neo-go/pkg/core/storage"
@@ -22,13 +23,14 @@ func (noClose) Close() error { return nil }
 
 // node = a real ledger brought to a chain-state kind.
 type node struct {
-	w      *world
-	st     storage.Store
-	bc     *core.Blockchain
-	h      int // block height when prepared
-	hdrH   int
-	state  string
-	pooled int
+	variants int // transactions pooled as another valid copy (different witness) of the block's
+	w        *world
+	st       storage.Store
+	bc       *core.Blockchain
+	h        int // block height when prepared
+	hdrH     int
+	state    string
+	pooled   int
 }
 
 func (w *world) open(st storage.Store) (*core.Blockchain, error) {
@@ -63,6 +65,15 @@ func (w *world) newNode(state string, h int) (*node, error) {
 	pool := func(i int) {
 		b, _ := unwire(w.raws[i], w.srih)
 		for _, tx := range b.Transactions {
+			// every multi-signed transaction is pooled as ANOTHER valid copy of itself (same hash, the witness made
+			// by another subset of the signers): the block's copy is as valid as the pooled one
+			if v, ok := chainkit.WitnessVariant(tx, netmode.Magic(w.magic)); ok {
+				if n.bc.PoolTx(v) == nil {
+					n.pooled++
+					n.variants++
+					continue
+				}
+			}
 			if n.bc.PoolTx(tx) == nil {
 				n.pooled++
 			}
